@@ -1344,7 +1344,7 @@ class Exec(ExprMixin, CallMixin):
     def _with_bounds(self, lc, extra):
         l2 = Loop(inv=[extra] + list(lc.inv), decreases=lc.decreases, index=lc.index, seq=lc.seq, locals=lc.locals,
                   modifies=lc.modifies, lemmas=lc.lemmas, havoc_extra=lc.havoc_extra, keep=lc.keep,
-                  at_end=lc.at_end, at_head=lc.at_head)
+                  at_end=lc.at_end, at_head=lc.at_head, at_exit=getattr(lc, 'at_exit', ()))
         return l2
 
     def for_hook(self, s, st, src, ordn, lc):
